@@ -50,16 +50,16 @@ Proof. exact (fun kd o fields excl => assign_names_nodup U0 C07_tables_ok kd o f
 
 (* non-vacuity: the default prefix satisfies the hypothesis, and hard names evaluate as expected *)
 Definition o_default : opts :=
-  {| o_snake := false; o_delim := None; o_prefix := S "field"; o_remove := false; o_cap := false;
+  {| o_snake := false; o_delim := None; o_prefix := (of_string "field"); o_remove := false; o_cap := false;
      o_noalias := false; o_empty := [] |}.
 Example C07_prefix_ok_default : prefix_ok U0 (o_prefix o_default) = true.
 Proof. vm_compute. reflexivity. Qed.
 Example C07_circled_one :
-  get_valid_name U0 2 Pyd o_default [] false [9312] = Ok (S "field_").
+  get_valid_name U0 2 Pyd o_default [] false [9312] = Ok ((of_string "field_")).
 Proof. vm_compute. reflexivity. Qed.
 Example C07_class_keyword_collision :
-  assign_names U0 Pyd o_default [] [] [S "class"; S "class_"; S "1a"]
-  = Some [(S "class_", Some (S "class")); (S "class__1", Some (S "class_")); (S "field_1a", Some (S "1a"))].
+  assign_names U0 Pyd o_default [] [] [(of_string "class"); (of_string "class_"); (of_string "1a")]
+  = Some [((of_string "class_"), Some ((of_string "class"))); ((of_string "class__1"), Some ((of_string "class_"))); ((of_string "field_1a"), Some ((of_string "1a")))].
 Proof. vm_compute. reflexivity. Qed.
 
 Print Assumptions C07_tables_ok.
